@@ -95,8 +95,9 @@ func cmdLock(args []string) {
 			fmt.Sscanf(f[2], "schedules=%d", &sc)
 			rep.Extra[fmt.Sprintf("model_states_%dx%dx%d", c[0], c[1], c[2])] = st
 			rep.Extra[fmt.Sprintf("model_transitions_%dx%dx%d", c[0], c[1], c[2])] = tr
-			for _, s := range strings.Split(f[3], ";") {
-				runA(lockmap.Program{N: c[0], K: c[1], Steps: lockmap.ParseSchedule(s)})
+			for i, s := range strings.Split(f[3], ";") {
+				// every other schedule: the odd-numbered goroutines go through Run (lock, callback, unlock)
+				runA(lockmap.Program{N: c[0], K: c[1], Steps: lockmap.ParseSchedule(s), ViaRun: i%2 == 1})
 			}
 		}
 		rep.Exhaustive = anomalies == 0
